@@ -161,3 +161,12 @@ package api
 //@   property C08 C06
 //@ lemma status_names_are_not_empty: forall a TrackerStatus :: haskey(trackerStatusString, a) ==> trackerStatusString[a] != ""
 //@   property C08 C06
+
+// "own equality used by callers": pins reported equal agree on CID, type, depth, reference and options
+// (allocations are compared through sorted, joined strings: not restated here)
+//@ extern sort.Strings(x)
+//@   modifies nothing
+//@ func (pin *Pin) Equals
+//@   property C08 C04
+//@   ensures [equal-pins-agree] res ==> pin != nil && pin2 != nil && pin.Cid == pin2.Cid && pin.Type == pin2.Type && pin.MaxDepth == pin2.MaxDepth && (pin.Reference == nil <==> pin2.Reference == nil) && (pin.Reference != nil ==> *pin.Reference == *pin2.Reference) && optsEq(pin.PinOptions, pin2.PinOptions)
+//@   modifies nothing
